@@ -652,7 +652,13 @@ type T struct {
 	M int
 }
 
-func New() *T { return &T{} }
+// New has the name of s1's constructor, and this package has s1's package NAME: it is still another package.
+func New() *T {
+	_ = m1.T{} // want CTOR01
+	var z m1.T // want CTOR03
+	z.F = 1 // want IMM01
+	return &T{}
+}
 
 func Probe() int { return 0 }
 
@@ -798,12 +804,14 @@ func RaceCorpus(n int) *prog.Program {
 		var b strings.Builder
 		fmt.Fprintf(&b, "package %s\n\ntype Iface interface{ Do(); Undo(x int) string }\n\n", name)
 		for t := 0; t < 5; t++ {
-			fmt.Fprintf(&b, "// S%d is immutable apart from its counters.\n// @immutable\n// @constructor New%d, Make%d\n// @implements Iface\ntype S%d struct {\n\t// hits is a cache counter.\n\t// @mutable\n\thits int\n\t// misses too.\n\t// @mutable\n\tmisses, evictions int\n\t// F is plain prose mentioning @mutable mid-line.\n\tF int\n\tXs []int\n}\n\n", t, t, t, t)
+			fmt.Fprintf(&b, "// S%d is immutable apart from its counters.\n// @immutable\n// @constructor New%d, Make%d\n// @implements Iface\ntype S%d struct {\n\t// hits is a cache counter.\n\t// @mutable\n\thits int\n\t// misses too.\n\t// @mutable\n\tmisses, evictions int\n\t// F is plain prose mentioning @mutable mid-line.\n\tF int\n\t// @ignore ZZZ9\n\tXs []int // @ignore ZZZ8\n}\n\n", t, t, t, t)
 			fmt.Fprintf(&b, "func New%d() *S%d { s := &S%d{}; s.F = 1; return s }\n\n", t, t, t)
 			fmt.Fprintf(&b, "// Probe%d is test-only and restricted.\n// @testonly\n// @packageonly nowhere, %s\nfunc Probe%d() int { return %d }\n\n", t, name, t, t)
 			fmt.Fprintf(&b, "func use%d(s *S%d) {\n\ts.hits++\n\ts.misses += 1\n\ts.evictions = 2\n\ts.F = 2\n\ts.Xs[0] = 1\n\t_ = S%d{}\n\t_ = Probe%d()\n}\n\n", t, t, t, t)
 		}
-		p.Pkgs = append(p.Pkgs, prog.Pkg{Path: "ex.com/m/" + name, Files: []prog.File{{Name: name + ".go", Src: b.String()}}})
+		// an in-package test file: the package is analysed a second time as its test variant, on the SAME syntax trees
+		tst := fmt.Sprintf("package %s\n\n// @ignore ZZZ7\nfunc inTest(s *S0, t *S1) {\n\ts.F = 3\n\tt.Xs[0] = 4 // @ignore ZZZ6\n\t_ = S2{}\n}\n\nvar _ = inTest\n", name)
+		p.Pkgs = append(p.Pkgs, prog.Pkg{Path: "ex.com/m/" + name, Files: []prog.File{{Name: name + ".go", Src: b.String()}, {Name: name + "_test.go", Src: tst}}})
 	}
 	for i := 0; i+1 < n; i += 2 {
 		a, c := fmt.Sprintf("rc%02d", i), fmt.Sprintf("rc%02d", i+1)
